@@ -122,7 +122,7 @@ impl<'a> G<'a> {
                 match c {
                     12 => {
                         // arithmetic with elements that are not Copy (operators, mul_add, Sum/Product, sum()/product())
-                        let mode = self.r.below(13);
+                        let mode = self.r.below(21);
                         let keep = self.r.below(2);
                         let extra = self.r.below(3);
                         let mut b = (keep << 8) | if mode == 7 || mode == 8 { extra } else { 0 };
@@ -136,11 +136,20 @@ impl<'a> G<'a> {
                             _ => self.n * self.w,
                         };
                         let mut f = 0;
-                        let mut gone = mode == 9 || mode == 10;
+                        let mut gone = mode == 9 || mode == 10 || (13..17).contains(&mode);
                         if self.faulty && self.faults_left > 0 && self.r.below(16) < self.fault_p {
                             self.faults_left -= 1;
-                            let which = if mode == 7 || mode == 8 { self.r.below(3) } else { 0 };
+                            let which = if mode == 7 || mode == 8 { self.r.below(3) } else if mode >= 13 { 3 } else { 0 };
                             match which {
+                                3 => {
+                                    // ordering-based forms: a comparison unwinds, or a loser's destructor does
+                                    if self.r.below(2) == 0 {
+                                        f = self.r.range(1, 2 * (self.n * self.w) as u32 + 1);
+                                    } else {
+                                        f = 1000 + self.r.below((self.n * self.w) as u32 + 1);
+                                    }
+                                    gone = true;
+                                }
                                 0 => {
                                     f = self.r.range(1, calls as u32 + 2);
                                     if (f as usize) <= calls && mode != 4 {
